@@ -260,7 +260,7 @@ func init() {
 			}
 			jobs := []Job{
 				{Pkg: "root", Func: "VerifC08DecodeName", Args: []int64{pick(6, 8)}, SplitN: int(pick(7, 9)), Cfg: ci(64, 1200)},
-				{Pkg: "root", Func: "VerifC08NDPOptions", Args: []int64{pick(16, 24)}, Cfg: cfg(64, 1500), Reach: r},
+				{Pkg: "root", Func: "VerifC08NDPOptions", Args: []int64{pick(16, 24)}, Cfg: cfg(64, int(pick(400, 1500))), Reach: r},
 				{Pkg: "root", Func: "VerifC08HopByHop", Args: []int64{pick(14, 18)}, Cfg: cfg(64, 900), Reach: r},
 				{Pkg: "root", Func: "VerifC08LLDP", Args: []int64{pick(12, 16)}, Cfg: cfg(64, 900), Reach: r},
 				{Pkg: "root", Func: "VerifC08DHCPOptions", Args: []int64{pick(246, 248)}, Cfg: cfg(300, 900), Reach: r},
@@ -299,5 +299,66 @@ func init() {
 			"the handler-level ProcessPacket entry points of the four handlers (ARP, DHCPv4, ICMPv6, DNS/mDNS/NBNS) beyond the payload decoders listed: not encoded in this session",
 			"DNS messages outside the templates; inputs longer than the stated lengths",
 		},
+	})
+}
+
+func init() {
+	register(&Prop{
+		ID:        "C19",
+		Technique: "bounded symbolic execution of echoNotify / Parse / ping / Ping6 from symbolic waiter tables and identifier counters with a programmable connection; completion conditions asserted by SMT against the reference decoder",
+		Jobs: func(tier string) []Job {
+			r := []string{"done"}
+			jobs := []Job{
+				{Pkg: "root", Func: "VerifC19Notify", Cfg: cfg(64, 300), Reach: r},
+				{Pkg: "root", Func: "VerifC19Parse", Args: []int64{0}, Cfg: cfg(64, 600), Reach: r},
+				{Pkg: "root", Func: "VerifC19Parse", Args: []int64{1}, Cfg: cfg(64, 600), Reach: r},
+			}
+			for v6 := int64(0); v6 < 2; v6++ {
+				for mode := int64(0); mode < 5; mode++ {
+					jobs = append(jobs, Job{Pkg: "root", Func: "VerifC19Ping", Args: []int64{v6, mode}, Cfg: cfg(64, 300), Reach: r})
+				}
+			}
+			return jobs
+		},
+		Bounds: func(tier string) map[string]string {
+			return map[string]string{
+				"echoNotify":   "every waiter table of <= 3 entries with distinct arbitrary identifiers, every notified identifier",
+				"Parse":        "every IPv4/ICMP and IPv6/ICMPv6 frame of length 0..80 (all contents) with one pending waiter of arbitrary identifier: completed iff the reference decoder sees a well-formed echo reply with that identifier",
+				"ping / Ping6": "arbitrary identifier counter value (including the wrap), arbitrary target MAC; five scenarios: no reply, send failure, matching reply parsed while waiting (both select outcomes), foreign identifier, a second ping started while the first is in flight",
+			}
+		},
+		Assumptions: []string{
+			"sequential semantics: the reply is delivered from inside the connection's WriteTo (i.e. before the waiter's select); the timer arm of select is always enabled (time is adversarial), a closed wake-up channel enables its arm; both are explored",
+			"real interleavings of concurrent pings with the packet loop (thread mode) are not explored; the identifier counter is a 16-bit value, so more than 65535 outstanding pings are outside the claim",
+		},
+		Outside: []string{"wall-clock latency", "goroutine-level interleavings"},
+	})
+}
+
+func init() {
+	register(&Prop{
+		ID:        "C16",
+		Technique: "bounded symbolic execution: provenance/offset assertions on the views returned by Parse (shared with C02) and SMT-decided unreachability of every allocating SSA instruction on the steady-state path",
+		Jobs: func(tier string) []Job {
+			al := Config{MaxLoop: 64, MaxWall: 900, TrackAlloc: true, Stubs: map[string]bool{}}
+			return []Job{
+				{Pkg: "root", Func: "VerifC02Parse", SplitN: 7, Cfg: cfg(64, 900), Reach: []string{"parsed"}},
+				{Pkg: "root", Func: "VerifC01Parse", Args: []int64{1}, SplitN: 7, Cfg: cfg(64, 900), Reach: []string{"parsed"}},
+				{Pkg: "root", Func: "VerifC16Alloc", Args: []int64{4}, Cfg: al, Reach: []string{"done"}},
+				{Pkg: "root", Func: "VerifC16Alloc", Args: []int64{6}, Cfg: al, Reach: []string{"done"}},
+				{Pkg: "root", Func: "VerifC16Alloc", Args: []int64{0}, Cfg: al, Reach: []string{"done"}},
+			}
+		},
+		Bounds: func(tier string) map[string]string {
+			return map[string]string{
+				"aliasing":   "every frame of length 0..1536: each view returned by Parse (Ether, IP4, IP6, UDP, TCP, Payload, MACs) is a sub-slice of the caller's buffer (same backing object) at the reference decoder's offset and ends inside the frame (VerifC02Parse / VerifC01Parse)",
+				"allocation": "every well-formed frame (reference decoder reports no error) of length 14..1536 whose source is an already tracked, online host (IPv4 on-LAN source, IPv6 link-local source, ARP sender), every PayloadID class: no allocating SSA instruction (heap Alloc in repository code, MakeSlice/MakeMap/MakeClosure, boxing of non-pointer values, growing append, string conversions, go, fmt.Errorf) is reachable between entry and return of Parse",
+			}
+		},
+		Assumptions: []string{
+			"allocation is decided at go/ssa level; go/ssa's conservative Heap flag is trusted only for the repository's own functions (dependency code such as net/netip spills arrays that the gc compiler keeps on the stack); the gc compiler's escape analysis itself is outside the model",
+			"logging calls are stubbed (their arguments are evaluated); time.Now is a stub",
+		},
+		Outside: []string{"the gc compiler's escape analysis and inlining decisions", "untracked-by-rule sources (own MAC, router, multicast, off-LAN) are covered for aliasing but the allocation claim is for tracked hosts only"},
 	})
 }
